@@ -445,6 +445,14 @@ pub fn run(ctx: &Ctx) {
         for n in [5usize, 6, 17, 64] {
             seqs.push((0..n).map(|i| i % pool.len()).collect());
         }
+        // long runs of one maximal element and long mixed runs: an accumulator that defers reduction overflows its
+        // reduction's precondition only after hundreds of terms (lengths on both sides of the powers of two)
+        for n in [255usize, 256, 257, 511, 512, 513, 514, 1023, 1025, 2047, 2048, 2049, 4097] {
+            for i in [2usize, 3, 4] {
+                seqs.push(vec![i; n]); // l-1, 2^252, (l-1)/2
+            }
+            seqs.push((0..n).map(|i| 2 + i % 3).collect());
+        }
         ctx.count("sum_product_batch_sequences", seqs.len() as u64);
         seqs.par_iter().for_each(|s| {
             ctx.eval(3);
@@ -455,8 +463,13 @@ pub fn run(ctx: &Ctx) {
             let case = json!({"kind": "seq", "seq": s});
             let sum: Scalar = rs.iter().sum();
             let prod: Scalar = rs.iter().product();
-            if canon_check(&sum, &msum).is_err() {
-                ctx.violation("sc.sum", "Sum differs", case.clone());
+            let sum_v: Scalar = rs.iter().copied().sum();
+            let prod_v: Scalar = rs.iter().copied().product();
+            if canon_check(&sum, &msum).is_err() || canon_check(&sum_v, &msum).is_err() {
+                ctx.violation("sc.sum", "Sum differs", json!({"kind": "seq", "len": s.len(), "seq": &s[..s.len().min(8)]}));
+            }
+            if canon_check(&prod_v, &mprod).is_err() {
+                ctx.violation("sc.product", "Product (by value) differs", json!({"kind": "seq", "len": s.len(), "seq": &s[..s.len().min(8)]}));
             }
             if canon_check(&prod, &mprod).is_err() {
                 ctx.violation("sc.product", "Product differs", case.clone());
